@@ -194,6 +194,7 @@ TOKENIZER = [
   F('Tokenizer::peek',
     spec=r'''    requires self.wf(),
     ensures r matches Ok(t) ==> t == tk(self.bytes(), self.off()),
+        r matches Ok(t) ==> tok_at(self.bytes(), self.off(), t),
     decreases self.len() - self.off(), 1int,''',
     ops=[],
   ),
@@ -249,9 +250,9 @@ TOKENIZER = [
     spec=r'''    requires self.in_token(start as int), atom.spec_bytes() == self.text(start as int, self.off()),
     ensures r matches Ok(t) ==> ((t matches Token::Function(s, sp) && sp == Span(start, self.off() as usize) && s == atom)
                               || (t matches Token::Reference(s, sp) && sp == Span(start, self.off() as usize) && s == atom)),
-        r matches Ok(t) ==> (t is Function) == tok_is(tk(self.bytes(), self.off()), "("@),  // @C10 class.function_lookahead
+        r matches Ok(t) ==> (t is Function) == la_open(self.bytes(), self.off()),  // @C10 class.function_lookahead
     decreases self.len() - self.off(), 2int,''',
-    ops=[],
+    ops=[Ins('let:peek', 'after', "        proof { lemma_open_paren(self.bytes(), self.off(), peek); }")],
   ),
   F('Tokenizer::string_token', props=['C01', 'C05', 'C10', 'C12'],   # C12: a string payload never contains its own delimiter, so the printer always has a free quote
     spec=r'''    requires old(self).in_token(start as int), start + 1 == old(self).off(),
@@ -301,11 +302,11 @@ TOKENIZER = [
         r is Ok && old(self).synced() ==> final(self).m() <= old(self).m(),
         r is Ok && old(self).synced() && !(old(self).cur() is EOF) ==> final(self).m() < old(self).m(),
         final(self).bytes() == old(self).bytes(),
-        r matches Ok(t) ==> t == tk(old(self).bytes(), old(self).off()),   // A7 (assumed below)
+        r matches Ok(t) ==> t == tk(old(self).bytes(), old(self).off()),   // @C10 scanner.deterministic
         r matches Ok(t) ==> tok_class(old(self).bytes(), t),  // @C10 class.token
     decreases old(self).len() - old(self).off(), 0int,''',
     ops=[
-      Ins('tail', 'before', "proof { assume(self.cur_token == tk(old(self).bytes(), old(self).off())); } // A7: determinism of the scanner"),
+      Ins('tail', 'before', "proof { let ghost b_ = old(self).bytes(); assert(tok_post(b_, old(self).off(), self.cur_token, self.off())); assert(tok_class(b_, self.cur_token)); assert(tok_end(self.cur_token, b_.len() as int) == self.off()); lemma_tk(b_, old(self).off(), self.cur_token); } // the scanner is a function: this token is the only one satisfying the postcondition and the classification"),
     ],
   ),
 ]
